@@ -2,8 +2,9 @@
   C05 — XPath compilation and execution are total and report failures faithfully.  Headline theorems.
 -/
 import YV.Proofs.XRun
+import YV.Proofs.XTotal
 namespace YV.C05
-open YV YV.X YV.XP YV.XM
+open YV YV.X YV.XP YV.XM YV.XL
 
 /-- Running any compiled machine (every program the builders emit ends with `store`) on any tree with any
     injected fault yields a value or an error, never both and never neither. -/
@@ -26,6 +27,28 @@ theorem C05_callback_error (t : Tree) (what : String) (s : MSt) (f : Fail)
   split at h
   · injection h with h; simp [← h]
   · simp [pure, Except.pure] at h
+
+/-- **building a machine is total**: for every byte string, every grammar and every prefix map the outcome
+    is a machine, an error, or the modelled panic of the unrepaired position arithmetic — never a parser
+    that runs on: every call that recurses without having consumed a token is one of a bounded chain
+    (eleven mutually recursive functions for must/when, six for leafref paths; invariant carried by
+    induction on the fuel) -/
+theorem C05_build_total (strict fixed : Bool) (g : Grammar) (pm : PfxMap) (bs : List Nat) :
+    build strict fixed g pm bs ≠ .diverge := by
+  unfold build
+  split
+  · simp
+  · simp only []
+    split
+    · rename_i heq
+      exfalso
+      cases g
+      all_goals first
+        | exact parseLeafrefToks_nofuel _ heq
+        | exact parseExprToks_nofuel strict _ heq
+    · generalize (Int.ofNat bs.length - Int.ofNat _ : Int) = mark
+      by_cases hm : mark < 0 <;> simp [hm]
+    · split <;> simp
 
 /-- non-vacuity: a tree whose first callback fails makes `evalLocPath` fail with the tree's error -/
 example : (run true { value := fun _ => .emptyNodeset, failAt := 1, derefTarget := id }
